@@ -535,7 +535,15 @@ class ApplyConcatApply(Expr):
                 aggregate_kwargs,
                 split_every=split_every,
             )
-        elif not self.need_to_shuffle:
+
+        if aggregate_kwargs.get("observed") is False:
+            # groupby on categorical keys with observed=False: every chunk already
+            # added the unobserved categories and the shuffle sends each of them
+            # to one output partition. Adding them again while aggregating would
+            # emit them once per output partition.
+            aggregate_kwargs = {**aggregate_kwargs, "observed": True}
+
+        if not self.need_to_shuffle:
             # Repartition and return
             result = Aggregate(
                 chunked,
